@@ -1221,41 +1221,93 @@ def nest_lifted_helpers(tree: ast.Module) -> int:
 # `for v in iter(f, None): B`                            ->   `while (v := f()) is not None: B`
 
 def inline_simple_generators(tree: ast.Module) -> int:
-    """A local parameterless generator whose body is one loop yielding one expression per element, consumed by exactly one
-    `for x in g():`, is that loop with `x = E` at the head of the consumer's body (generators are lazy: producer and consumer
-    alternate exactly like this).  The producer's loop variable must not occur elsewhere in the enclosing function.
+    """A local parameterless generator consumed by exactly one `for x in g(): B` is its own body with `x = E; B` in place of each
+    `yield E` and `for x in IT: B` in place of each `yield from IT` (generators are lazy: producer and consumer alternate exactly
+    like this).  B must not `break` / `continue` the consuming loop (that would stop or skip inside the producer), the producer
+    must not `return` early, and its locals are renamed apart from the enclosing function's names.
     `iter(f, None)` is the stream of `f()` up to the first None.  -> number of rewrites"""
+    import copy
     count = 0
     for fn in [x for x in ast.walk(tree) if isinstance(x, (ast.FunctionDef, ast.AsyncFunctionDef))]:
         for g in [n for n in fn.body if isinstance(n, ast.FunctionDef)]:
             if g.args.args or g.args.vararg or g.args.kwarg or g.args.kwonlyargs or g.decorator_list:
                 continue
-            body = [st for st in g.body if not (isinstance(st, ast.Expr) and isinstance(st.value, ast.Constant))]
-            if len(body) != 1 or not isinstance(body[0], ast.For) or body[0].orelse or not isinstance(body[0].target, ast.Name):
+            inner_defs = {id(n) for h in ast.walk(g) if isinstance(h, (ast.FunctionDef, ast.Lambda)) and h is not g for n in ast.walk(h)}
+            ys = [n for n in ast.walk(g) if isinstance(n, (ast.Yield, ast.YieldFrom)) and id(n) not in inner_defs]
+            ystmts = [st for st in ast.walk(g) if isinstance(st, ast.Expr) and id(st) not in inner_defs
+                      and (isinstance(st.value, ast.Yield) and st.value.value is not None or isinstance(st.value, ast.YieldFrom))]
+            if not ys or len(ys) != len(ystmts) or len(ys) > 4:
                 continue
-            lp = body[0]
-            if len(lp.body) != 1 or not (isinstance(lp.body[0], ast.Expr) and isinstance(lp.body[0].value, ast.Yield) and lp.body[0].value.value is not None):
-                continue
-            if any(isinstance(n, (ast.Yield, ast.YieldFrom)) for n in ast.walk(lp.body[0].value.value)):
+            if any(isinstance(n, (ast.Return, ast.Global, ast.Nonlocal)) and id(n) not in inner_defs for n in ast.walk(g)):
                 continue
             refs = [n for n in ast.walk(fn) if isinstance(n, ast.Name) and n.id == g.name]
             uses = [n for n in ast.walk(fn) if isinstance(n, ast.For) and isinstance(n.iter, ast.Call) and isinstance(n.iter.func, ast.Name)
-                    and n.iter.func.id == g.name and not n.iter.args and not n.iter.keywords and not n.orelse and isinstance(n.target, ast.Name)]
-            if len(refs) != 1 or len(uses) != 1:
+                    and n.iter.func.id == g.name and not n.iter.args and not n.iter.keywords and not n.orelse]
+            if len(refs) != 1 or len(uses) != 1 or any(u is x for u in uses for x in ast.walk(g)):
                 continue
             use = uses[0]
-            t = lp.target.id
-            in_g = {id(n) for n in ast.walk(g)}
-            if any(isinstance(n, ast.Name) and n.id == t and id(n) not in in_g for n in ast.walk(fn)):
+
+            # the consumer's body may not break / continue the consuming loop itself
+            def escapes(stmts):
+                for st in stmts:
+                    if isinstance(st, (ast.Break, ast.Continue)):
+                        return True
+                    if isinstance(st, (ast.For, ast.While, ast.FunctionDef, ast.ClassDef)):
+                        continue
+                    for fld in ('body', 'orelse', 'finalbody', 'handlers'):
+                        sub = getattr(st, fld, None)
+                        if isinstance(sub, list) and sub and isinstance(sub[0], ast.stmt) and escapes(sub):
+                            return True
+                return False
+            if escapes(use.body):
                 continue
-            assign = ast.Assign(targets=[ast.Name(id=use.target.id, ctx=ast.Store())], value=lp.body[0].value.value)
-            ast.copy_location(assign, use)
-            use.target = ast.Name(id=t, ctx=ast.Store())
-            use.iter = lp.iter
-            use.body = [assign] + use.body
-            ast.fix_missing_locations(use)
-            fn.body.remove(g)
-            count += 1
+            in_g = {id(n) for n in ast.walk(g)}
+            outer_names = {n.id for n in ast.walk(fn) if isinstance(n, ast.Name) and id(n) not in in_g} | {a.arg for a in fn.args.args}
+            stored_g = {n.id for n in ast.walk(g) if isinstance(n, ast.Name) and isinstance(n.ctx, (ast.Store, ast.Del)) and id(n) not in inner_defs}
+            ren = {v: f'{v}__{g.name}' for v in stored_g if v in outer_names}
+            gbody = [copy.deepcopy(st) for st in g.body if not (isinstance(st, ast.Expr) and isinstance(st.value, ast.Constant))]
+
+            class R(ast.NodeTransformer):
+                def visit_Name(self, n):
+                    if n.id in ren:
+                        n.id = ren[n.id]
+                    return n
+
+                def visit_FunctionDef(self, n):
+                    return n
+
+                visit_Lambda = visit_FunctionDef
+
+                def visit_Expr(self, n):
+                    self.generic_visit(n)
+                    if isinstance(n.value, ast.Yield):
+                        bind = ast.Assign(targets=[copy.deepcopy(use.target)], value=n.value.value)
+                        return [ast.copy_location(bind, n)] + [copy.deepcopy(b) for b in use.body]
+                    if isinstance(n.value, ast.YieldFrom):
+                        lp = ast.For(target=copy.deepcopy(use.target), iter=n.value.value, body=[copy.deepcopy(b) for b in use.body], orelse=[])
+                        return ast.copy_location(lp, n)
+                    return n
+            new = []
+            for st in gbody:
+                r = R().visit(st)
+                new.extend(r if isinstance(r, list) else [r])
+            for x in new:
+                ast.fix_missing_locations(x)
+            # replace the consuming loop by the expanded producer, drop the definition
+            done = False
+            for holder in ast.walk(fn):
+                for fld in ('body', 'orelse', 'finalbody'):
+                    blk = getattr(holder, fld, None)
+                    if isinstance(blk, list) and any(x is use for x in blk):
+                        k = next(i for i, x in enumerate(blk) if x is use)
+                        blk[k:k + 1] = new
+                        done = True
+                        break
+                if done:
+                    break
+            if done:
+                fn.body = [x for x in fn.body if x is not g]
+                count += 1
     for node in ast.walk(tree):
         for fld in ('body', 'orelse', 'finalbody'):
             blk = getattr(node, fld, None)
@@ -1282,7 +1334,7 @@ def inline_simple_generators(tree: ast.Module) -> int:
 def extend_by_generator_to_appends(tree: ast.Module) -> int:
     """Extending a list by a call of a module-level generator function appends what it yields, in order, and nothing else
     happens in between (the generator runs to exhaustion inside `extend`): the statement is the generator's body with each
-    `yield E` read as `out.append(E)`, its parameters replaced by the (plain name) arguments and a bare `return` restructured
+    `yield E` read as `out.append(E)` (`yield from IT` as `out.extend(IT)`), its parameters replaced by the (plain name) arguments and a bare `return` restructured
     into if / else.  Locals of the generator that clash with names of the caller are renamed apart.  -> number of sites"""
     import copy
     count = 0
@@ -1291,9 +1343,10 @@ def extend_by_generator_to_appends(tree: ast.Module) -> int:
         if isinstance(g, ast.FunctionDef) and not g.decorator_list and not (g.args.vararg or g.args.kwarg or g.args.kwonlyargs or g.args.defaults):
             inner_defs = {id(n) for h in ast.walk(g) if isinstance(h, (ast.FunctionDef, ast.Lambda)) and h is not g for n in ast.walk(h)}
             ys = [n for n in ast.walk(g) if isinstance(n, (ast.Yield, ast.YieldFrom)) and id(n) not in inner_defs]
-            if not ys or any(isinstance(y, ast.YieldFrom) for y in ys):
+            if not ys:
                 continue
-            stmts_y = [st for st in ast.walk(g) if isinstance(st, ast.Expr) and isinstance(st.value, ast.Yield) and st.value.value is not None]
+            stmts_y = [st for st in ast.walk(g) if isinstance(st, ast.Expr) and (isinstance(st.value, ast.Yield) and st.value.value is not None
+                                                                                  or isinstance(st.value, ast.YieldFrom))]
             if len(stmts_y) != len(ys):
                 continue                              # a yield used as an expression
             if any(isinstance(n, ast.Return) and n.value is not None and id(n) not in inner_defs for n in ast.walk(g)):
@@ -1355,8 +1408,10 @@ def extend_by_generator_to_appends(tree: ast.Module) -> int:
 
                         def visit_Expr(self, n):
                             self.generic_visit(n)
-                            if isinstance(n.value, ast.Yield):
-                                c = ast.Call(func=ast.Attribute(value=ast.Name(id=out, ctx=ast.Load()), attr='append', ctx=ast.Load()),
+                            if isinstance(n.value, (ast.Yield, ast.YieldFrom)):
+                                # `yield E` appends E, `yield from IT` extends by IT
+                                how = 'append' if isinstance(n.value, ast.Yield) else 'extend'
+                                c = ast.Call(func=ast.Attribute(value=ast.Name(id=out, ctx=ast.Load()), attr=how, ctx=ast.Load()),
                                              args=[n.value.value], keywords=[])
                                 return ast.copy_location(ast.Expr(value=c), n)
                             return n
